@@ -188,12 +188,18 @@ func rsaMaterial(bits int) *rsaMat {
 	if err != nil {
 		panic(err)
 	}
+	m := rsaMatOf(bits, k.Primes[0], k.Primes[1])
+	rsaCache[bits] = m
+	return m
+}
+
+// rsaMatOf derives the cached material (modulus, λ(n), exponents giving leading zeros) of the primes.
+func rsaMatOf(bits int, p, q *big.Int) *rsaMat {
 	one := big.NewInt(1)
-	p, q := k.Primes[0], k.Primes[1]
 	p1, q1 := new(big.Int).Sub(p, one), new(big.Int).Sub(q, one)
 	g := new(big.Int).GCD(nil, nil, p1, q1)
 	lam := new(big.Int).Div(new(big.Int).Mul(p1, q1), g)
-	m := &rsaMat{bits: bits, p: p, q: q, n: new(big.Int).Set(k.N), lam: lam}
+	m := &rsaMat{bits: bits, p: p, q: q, n: new(big.Int).Mul(p, q), lam: lam}
 	// look for exponents that give values needing a leading zero in the fixed-width encodings
 	nl, pl, ql := len(m.n.Bytes()), len(p.Bytes()), len(q.Bytes())
 	found := map[string]bool{}
@@ -217,7 +223,6 @@ func rsaMaterial(bits int) *rsaMat {
 			m.lzWhat = append(m.lzWhat, what)
 		}
 	}
-	rsaCache[bits] = m
 	return m
 }
 
@@ -603,8 +608,11 @@ func rsaSources() (out []rsaSrc) {
 	return
 }
 
-func gridRSAPKCS1() (out []gcase) {
-	for si, src := range rsaSources() {
+func gridRSAPKCS1() []gcase { return thin(gridRSAPKCS1Of(rsaSources()), 2) }
+
+// gridRSAPKCS1Of: every hash × variant for each key material source.
+func gridRSAPKCS1Of(srcs []rsaSrc) (out []gcase) {
+	for si, src := range srcs {
 		m, e := src.m, src.e
 		for _, h := range []rsassapkcs1.HashType{rsassapkcs1.SHA256, rsassapkcs1.SHA384, rsassapkcs1.SHA512} {
 			for _, v := range []rsassapkcs1.Variant{rsassapkcs1.VariantTink, rsassapkcs1.VariantCrunchy, rsassapkcs1.VariantLegacy, rsassapkcs1.VariantNoPrefix} {
@@ -627,11 +635,14 @@ func gridRSAPKCS1() (out []gcase) {
 			}
 		}
 	}
-	return thin(out, 2)
+	return out
 }
 
-func gridRSAPSS() (out []gcase) {
-	for si, src := range rsaSources() {
+func gridRSAPSS() []gcase { return thin(gridRSAPSSOf(rsaSources()), 5) }
+
+// gridRSAPSSOf: every hash × salt length × variant for each key material source.
+func gridRSAPSSOf(srcs []rsaSrc) (out []gcase) {
+	for si, src := range srcs {
 		m, e := src.m, src.e
 		for _, h := range []rsassapss.HashType{rsassapss.SHA256, rsassapss.SHA384, rsassapss.SHA512} {
 			for _, salt := range []int{0, 1, 20, 32, 64} {
@@ -661,7 +672,7 @@ func gridRSAPSS() (out []gcase) {
 			}
 		}
 	}
-	return thin(out, 5)
+	return out
 }
 
 func gridMLDSA() (out []gcase) {
@@ -960,54 +971,7 @@ func gridJWT() (out []gcase) {
 	// JWT RSA
 	var rs []gcase
 	for _, bits := range rsaBits() {
-		m := rsaMaterial(bits)
-		es, what := rsaExps(m)
-		for ei, e := range es {
-			d := m.d(e)
-			for ai := 0; ai < 3; ai++ {
-				for _, st := range []int{1, 2, 3} {
-					kids := []string{""}
-					if st == 3 {
-						kids = customKIDs[:3]
-					}
-					for ki, kid := range kids {
-						custom := st == 3
-						lossy := ""
-						if custom {
-							lossy = "JWT CustomKID strategy is not representable in a key template (parses back as IgnoredKID)"
-						} else if e != 65537 {
-							lossy = "JWT RSA: the key template is always written with public exponent F4 (65537), whatever the parameters say"
-						}
-						{
-							p := must(jwtrsassapkcs1.NewParameters(jwtrsassapkcs1.ParametersOpts{ModulusSizeInBits: bits, PublicExponent: e,
-								Algorithm: []jwtrsassapkcs1.Algorithm{jwtrsassapkcs1.RS256, jwtrsassapkcs1.RS384, jwtrsassapkcs1.RS512}[ai], KidStrategy: jwtrsassapkcs1.KIDStrategy(st)}))
-							rs = append(rs, gcase{typ: "JwtRsaSsaPkcs1PrivateKey", class: "jwtsig", label: fmt.Sprintf("%d/e%d/%v/%v/kid%d", bits, e, p.Algorithm(), p.KIDStrategy(), ki), params: p,
-								mat: what[ei], slow: true, paramsLossy: lossy, noKeyset: ei > 0,
-								mk: func(id uint32) (key.Key, error) {
-									pub, err := jwtrsassapkcs1.NewPublicKey(jwtrsassapkcs1.PublicKeyOpts{Modulus: m.n.Bytes(), IDRequirement: id, CustomKID: kid, HasCustomKID: custom, Parameters: p})
-									if err != nil {
-										return nil, err
-									}
-									return jwtrsassapkcs1.NewPrivateKey(jwtrsassapkcs1.PrivateKeyOpts{PublicKey: pub, D: hlib.Secret(d.Bytes()), P: hlib.Secret(m.p.Bytes()), Q: hlib.Secret(m.q.Bytes())})
-								}})
-						}
-						{
-							p := must(jwtrsassapss.NewParameters(jwtrsassapss.ParametersOpts{ModulusSizeInBits: bits, PublicExponent: e,
-								Algorithm: []jwtrsassapss.Algorithm{jwtrsassapss.PS256, jwtrsassapss.PS384, jwtrsassapss.PS512}[ai], KidStrategy: jwtrsassapss.KIDStrategy(st)}))
-							rs = append(rs, gcase{typ: "JwtRsaSsaPssPrivateKey", class: "jwtsig", label: fmt.Sprintf("%d/e%d/%v/%v/kid%d", bits, e, p.Algorithm(), p.KIDStrategy(), ki), params: p,
-								mat: what[ei], slow: true, paramsLossy: lossy, noKeyset: ei > 0,
-								mk: func(id uint32) (key.Key, error) {
-									pub, err := jwtrsassapss.NewPublicKey(jwtrsassapss.PublicKeyOpts{Modulus: m.n.Bytes(), IDRequirement: id, CustomKID: kid, HasCustomKID: custom, Parameters: p})
-									if err != nil {
-										return nil, err
-									}
-									return jwtrsassapss.NewPrivateKey(jwtrsassapss.PrivateKeyOpts{PublicKey: pub, D: hlib.Secret(d.Bytes()), P: hlib.Secret(m.p.Bytes()), Q: hlib.Secret(m.q.Bytes())})
-								}})
-						}
-					}
-				}
-			}
-		}
+		rs = append(rs, gridJWTRSAOf(rsaMaterial(bits), "")...)
 	}
 	out = append(out, thin(rs, 3)...)
 	// JWT ML-DSA
@@ -1035,6 +999,69 @@ func gridJWT() (out []gcase) {
 		}
 	}
 	return
+}
+
+// gridJWTRSAOf: JWT RS* and PS* grid points (exponents × algorithm × KID strategy × custom kids) on
+// one key material. matPrefix names the material class when it is not an ordinary generated key.
+func gridJWTRSAOf(m *rsaMat, matPrefix string) (rs []gcase) {
+	bits := m.bits
+	matOf := func(what string) string {
+		switch {
+		case matPrefix == "":
+			return what
+		case what == "fresh":
+			return matPrefix
+		}
+		return matPrefix + "+" + what
+	}
+	es, what := rsaExps(m)
+	for ei, e := range es {
+		d := m.d(e)
+		for ai := 0; ai < 3; ai++ {
+			for _, st := range []int{1, 2, 3} {
+				kids := []string{""}
+				if st == 3 {
+					kids = customKIDs[:3]
+				}
+				for ki, kid := range kids {
+					custom := st == 3
+					lossy := ""
+					if custom {
+						lossy = "JWT CustomKID strategy is not representable in a key template (parses back as IgnoredKID)"
+					} else if e != 65537 {
+						lossy = "JWT RSA: the key template is always written with public exponent F4 (65537), whatever the parameters say"
+					}
+					{
+						p := must(jwtrsassapkcs1.NewParameters(jwtrsassapkcs1.ParametersOpts{ModulusSizeInBits: bits, PublicExponent: e,
+							Algorithm: []jwtrsassapkcs1.Algorithm{jwtrsassapkcs1.RS256, jwtrsassapkcs1.RS384, jwtrsassapkcs1.RS512}[ai], KidStrategy: jwtrsassapkcs1.KIDStrategy(st)}))
+						rs = append(rs, gcase{typ: "JwtRsaSsaPkcs1PrivateKey", class: "jwtsig", label: fmt.Sprintf("%d/e%d/%v/%v/kid%d", bits, e, p.Algorithm(), p.KIDStrategy(), ki), params: p,
+							mat: matOf(what[ei]), slow: true, paramsLossy: lossy, noKeyset: ei > 0,
+							mk: func(id uint32) (key.Key, error) {
+								pub, err := jwtrsassapkcs1.NewPublicKey(jwtrsassapkcs1.PublicKeyOpts{Modulus: m.n.Bytes(), IDRequirement: id, CustomKID: kid, HasCustomKID: custom, Parameters: p})
+								if err != nil {
+									return nil, err
+								}
+								return jwtrsassapkcs1.NewPrivateKey(jwtrsassapkcs1.PrivateKeyOpts{PublicKey: pub, D: hlib.Secret(d.Bytes()), P: hlib.Secret(m.p.Bytes()), Q: hlib.Secret(m.q.Bytes())})
+							}})
+					}
+					{
+						p := must(jwtrsassapss.NewParameters(jwtrsassapss.ParametersOpts{ModulusSizeInBits: bits, PublicExponent: e,
+							Algorithm: []jwtrsassapss.Algorithm{jwtrsassapss.PS256, jwtrsassapss.PS384, jwtrsassapss.PS512}[ai], KidStrategy: jwtrsassapss.KIDStrategy(st)}))
+						rs = append(rs, gcase{typ: "JwtRsaSsaPssPrivateKey", class: "jwtsig", label: fmt.Sprintf("%d/e%d/%v/%v/kid%d", bits, e, p.Algorithm(), p.KIDStrategy(), ki), params: p,
+							mat: matOf(what[ei]), slow: true, paramsLossy: lossy, noKeyset: ei > 0,
+							mk: func(id uint32) (key.Key, error) {
+								pub, err := jwtrsassapss.NewPublicKey(jwtrsassapss.PublicKeyOpts{Modulus: m.n.Bytes(), IDRequirement: id, CustomKID: kid, HasCustomKID: custom, Parameters: p})
+								if err != nil {
+									return nil, err
+								}
+								return jwtrsassapss.NewPrivateKey(jwtrsassapss.PrivateKeyOpts{PublicKey: pub, D: hlib.Secret(d.Bytes()), P: hlib.Secret(m.p.Bytes()), Q: hlib.Secret(m.q.Bytes())})
+							}})
+					}
+				}
+			}
+		}
+	}
+	return rs
 }
 
 func gridKD(r *hlib.Rng) (out []gcase) {
@@ -1097,10 +1124,15 @@ func allGrids(seed uint64) []gcase {
 	out = append(out, gridStreaming()...)
 	out = append(out, gridJWT()...)
 	out = append(out, gridKD(r)...)
+	markCustomKID(out)
+	return out
+}
+
+// markCustomKID: JWT parameters with the CustomKID strategy have no key template (documented refusal).
+func markCustomKID(out []gcase) {
 	for i := range out {
 		if m := reflect.ValueOf(out[i].params).MethodByName("KIDStrategy"); m.IsValid() && fmt.Sprint(m.Call(nil)[0].Interface()) == "CustomKID" {
 			out[i].docUnserParams = "jwt-custom-kid-strategy"
 		}
 	}
-	return out
 }
